@@ -190,9 +190,10 @@ PROPS = {
             "tie to /repo: the same random reference graphs (trees, shared subtrees, cycles, dangling and wrongly typed references), /Prev chains (loops, dangling offsets) and boundary sizes are written as files and given to reader.Open + PageCount, core.XRefParser.ParseAllXRefs / ParseXRefFromEOF, core.ObjectStream and xlsx.Open; result (pages, sections read, accepted / refused) must equal the model's",
             "everything else is decided by running: every entry point (Text, ToMarkdown, Chunks and exports, Document, Fragments, Analyze, PageCount, Lines / Paragraphs / IsCharacterLevel, Text with options, and the raw-byte parsers core.Parser, contentstream.Parser, font.ParseToUnicodeCMap, FromHTMLString) on every damaged input in an isolated worker process with a 15 s deadline, a 768 MiB heap watchdog, a 256 MiB stack limit and a per-call allocation meter; a panic, a fatal runtime error, a kill by the watchdog or a missed deadline is a violation with the input file as replay",
             "inputs: valid documents of every format (PDF in the physical layouts of C01) x the fault catalogue of the property (truncation at token boundaries, numeric fields set to 0 / -1 / 2^31 / 2^32-1 / 2^63-1, references retargeted to other objects, their holder or object 0, objects and ZIP members dropped or duplicated, delimiters and tags unbalanced, compressed data corrupted, keys swapped, values of the wrong kind, one or two faults) + random byte noise + directed constructs for each mechanism the property names (/Prev loops, Kids loops and shared-subtree bombs, /Count and /Length lies, self-invoking form XObjects, predictor parameters, ToUnicode ranges, font dictionaries, cross-reference and object stream headers, ODT / DOCX / XLSX repeat, span and level counts, deep nesting in HTML, NCX and OOXML)",
-            "NOT covered: coverage-guided mutation (no fuzzing engine is part of the check; the byte-noise stream is blind), decompression bombs (output proportional to what the compressed data really holds), super-linear running times that stay under the deadline on inputs of the sizes generated (a few MB), resource use of concurrent calls",
+            "thorough tier only: coverage-guided mutation by Go's native fuzzing engine (harness/fuzz_test.go: FuzzPDF, FuzzHTML, FuzzDOCX, FuzzODT, FuzzXLSX, seeded with generated documents and the directed constructs, 40-90 s each; every entry point per mutant under a 15 s deadline and the allocation meter); in the quick tier the byte-noise stream is blind", "NOT covered: decompression bombs (output proportional to what the compressed data really holds), super-linear running times that stay under the deadline on inputs of the sizes generated (a few MB), resource use of concurrent calls",
         ],
         assumptions=["the deadline, heap and stack limits are the harness's; a slower machine can turn a slow input into a reported hang"],
         timeout=3000,
+        fuzz=[("FuzzPDF", 90), ("FuzzHTML", 40), ("FuzzDOCX", 40), ("FuzzODT", 40), ("FuzzXLSX", 40)],
     ),
 }
